@@ -131,13 +131,51 @@ def gen_planted_history(rng):
     return dict(spec=spec, ops=ops)
 
 
+def gen_decimal_waiting(rng):
+    """decimal (non-dyadic) data on which floating point cannot matter: every customer has a zero-width window [w, w] at a tenth, and
+    the vehicle always arrives early by at least 1/4, so the clock after each stop must read exactly w (waiting = max, no arithmetic)
+    and the window end is met with equality.  An implementation that computes the waiting by adding a difference is off by an ulp."""
+    ncust = rng.randint(1, 3)
+    w = Fraction(0)
+    nodes = [dict(name="D", demand="0", lo="0", hi="inf")]
+    arcs = []
+    prev = "D"
+    for i in range(ncust):
+        # (travel time, waiting) pairs for which  a + (b - a) != b  in doubles, a = arrival, b = window start: there the two ways of
+        # computing the clock after waiting differ; early by >= 3/10 in every case
+        hits = [(Fraction(tt, 10), Fraction(gg, 100)) for tt in range(1, 10) for gg in range(30, 150)
+                if float(w + Fraction(tt, 10)) + (float(w + Fraction(tt, 10) + Fraction(gg, 100)) - float(w + Fraction(tt, 10)))
+                != float(w + Fraction(tt, 10) + Fraction(gg, 100))]
+        t, gap = rng.choice(hits) if hits else (Fraction(rng.randint(1, 9), 10), Fraction(rng.choice([3, 6, 7, 11, 14]), 10))
+        w = w + t + gap
+        nm = f"c{i + 1}"
+        nodes.append(dict(name=nm, demand="0", lo=fs(w), hi=fs(w)))
+        arcs.append([prev, nm, fs(t), str(rng.randint(1, 4))])
+        arcs.append([nm, "D", fs(Fraction(rng.randint(1, 9), 10)), str(rng.randint(1, 4))])
+        if prev != "D" and rng.random() < 0.5:
+            arcs.append(["D", nm, fs(Fraction(rng.randint(1, 3), 10)), "2"])
+        prev = nm
+    names = [nd["name"] for nd in nodes]
+    full = names + ["D"]
+    ops = [["R", list(full)], ["R", [names.index(x) for x in full]]]
+    for i in range(1, ncust):
+        ops.append(["R", names[:i + 1] + ["D"]])
+    ops.append(["R", list(full)])
+    return dict(spec=dict(nodes=nodes, arcs=arcs, cap="10", init="5"), ops=ops, decimal=True)
+
+
 def gen(rng, tier):
     n_cases = 220 if tier == "quick" else 3000
     for k in range(n_cases):
+        if k % 11 == 7:
+            yield gen_decimal_waiting(rng)
+            continue
         if k % 3 == 2:
             yield gen_planted_history(rng)
             continue
         spec = VU.gen_vrptw(rng, nmax=5)
+        if rng.random() < 0.07:
+            spec[rng.choice(["cap", "init"])] = None        # vehicle data left unset (the excluded point of the route definition)
         names = [n["name"] for n in spec["nodes"]]
         v = None
         ops = []
@@ -277,6 +315,13 @@ def run_case(case, drv):
         line = f"{chk} {add}"
         if idx < len(mres) and line != mres[idx]:
             res.disagree(f"route #{idx} {route}", line, mres[idx])
+        if g["cap"] is None or g["init"] is None:
+            # vehicle data unset: the code raises TypeError when it reaches the load arithmetic and rejects routes that fail earlier
+            # (modelled by checkRouteO, proved in Props/C06d: never an acceptance); compared with the model above
+            if feas is True or f2 is True:
+                res.fail("route:accepted-without-vehicle-data", f"route {route} accepted although capacity / initial loading are unset")
+            res.features.append("vehicle-data-unset:" + ("raised" if feas is None else "rejected"))
+            continue
         # ---------- oracle
         unknown = [x for x in route if isinstance(x, str) and x not in names]
         idx_route = [names.index(x) if isinstance(x, str) and x in names else x for x in route]
